@@ -144,6 +144,13 @@ func (p *PreemptionContext) filterAllocations() filteringResult {
 			continue
 		}
 
+		// skip the real allocation of a placeholder replacement that is still in flight: it is registered on the
+		// node but not bound, the shim has not been told about it yet
+		if !allocation.IsPlaceholder() && allocation.HasRelease() {
+			result.releasedPhAllocations++
+			continue
+		}
+
 		p.allocations = append(p.allocations, allocation)
 	}
 
